@@ -49,17 +49,18 @@ type simConn struct {
 	in []byte
 	// client -> broker log
 	out       []byte
-	brokerPos int // bytes of out consumed by the broker
-	lost      int // bytes of out (suffix) that never reached the broker
+	brokerPos int  // bytes of out consumed by the broker
+	lost      int  // bytes of out (suffix) that never reached the broker
 	closed    bool // closed by the client
 	dead      bool // cut by network or broker
 	rdl, wdl  time.Time
-	nRead     int // total bytes handed to the client
+	nRead     int    // total bytes handed to the client
 	sentIn    []byte // everything the broker ever queued (for monitors)
 	bk        *brokerConn
 	// writes: offsets in out where each Write call started (for monitors)
 	closeErr  error
 	stallNext bool
+	halfDead  bool
 }
 
 func (c *simConn) String() string { return "c" + itoa(c.id) }
@@ -136,8 +137,8 @@ func (c *simConn) Close() error {
 	return r.err
 }
 
-func (c *simConn) LocalAddr() net.Addr         { return simAddr{} }
-func (c *simConn) RemoteAddr() net.Addr        { return simAddr{} }
+func (c *simConn) LocalAddr() net.Addr           { return simAddr{} }
+func (c *simConn) RemoteAddr() net.Addr          { return simAddr{} }
 func (c *simConn) SetDeadline(t time.Time) error { c.rdl, c.wdl = t, t; return nil }
 func (c *simConn) SetReadDeadline(t time.Time) error {
 	c.rdl = t
